@@ -15,9 +15,16 @@ def plans(tier):
             dict(gens="collapse,hole", variants="base,keep,rev", n=20000, W=8, nmax=12, bias=0.6, seed=s + 2)]
 
 
+def real_plans(tier):
+    s = vlib.seed()
+    q = tier == "quick"
+    return [dict(real=True, gens="spiky,arbitrary,star,hole", variants="base,keep", n=600 if q else 20000, seed=s + 50, where="interior,origin,nl,f4"),
+            dict(real=True, sets="WebMercatorQuad,UPSAntarcticWGS84Quad", gens="spiky", variants="base,keep", n=200 if q else 8000, seed=s + 51, where="f4,interior")]
+
+
 def run(tier):
     return snapcheck.run_snap_property(
-        PROP, tier, "SnapTrace_C05.cfg", plans(tier),
+        PROP, tier, "SnapTrace_C05.cfg", plans(tier), real_plans=real_plans(tier), real_cfg="RealTrace_C05.cfg",
         rule="arbitrary vertex sequences from small point pools (repeated vertices, spikes, rings of 0-2 points, up to 3 rings) and valid "
              "polygons, each run with keep-points-and-lines off and on (and reverse toggled); ring structure, orientation by sign of area, "
              "collapse policy and the keep/no-keep relation judged by TLC")
